@@ -149,7 +149,8 @@ Section Inv.
 
   Fixpoint valid (s : xstate) (p : pc) : Prop :=
     match p with
-    | PL_Meta _ _ tab _ _ | PL_Ent _ _ tab _ _ _ | PL_Next _ _ tab _ _ => tab < length (g_tabs s)
+    | PL_Meta _ _ tab _ _ | PL_Next _ _ tab _ _ => tab < length (g_tabs s)
+    | PL_Ent _ _ tab _ _ todo => tab < length (g_tabs s) /\ todo <> []
     | PW_Lock _ tab | PW_ChkRes _ tab | PW_ChkTab _ tab | PW_D1 _ tab _ _ | PW_D2 _ tab _ _ | PW_U1 _ tab _ _ _
     | PW_I1 _ tab _ _ | PW_I2 _ tab _ _ | PW_Sum _ tab _ _ | PW_N1 _ tab _ => tab < length (g_tabs s)
     | PW_Unlock tab b after | PW_Add tab b _ after =>
@@ -172,6 +173,7 @@ Section Inv.
     all: try (destruct H as [H1 [H2 [H3 H3']]]; split; [lia|]; split; [destruct (Hf _ H1) as [E _]; rewrite E; exact H2 | auto]).
     all: try (destruct H as [H1 [H2 [H3 H4]]]; split; [lia|]; split; [lia|]; split; [destruct (Hf _ H1) as [E _]; rewrite E; exact H3 | exact H4]).
     all: try (destruct H as [H1 H2]; split; [lia | destruct (Hf _ H1) as [E _]; rewrite E; exact H2]).
+    all: try (destruct H as [H1 H2]; split; [lia | exact H2]).
   Qed.
 
   Lemma holds_frame s s' p : frame s s' -> valid s p -> holds s' p = holds s p.
@@ -645,13 +647,14 @@ Section Inv.
     destruct p; intros s' ls Hs Hv; cbn [XMachine.step_pc] in Hs; try discriminate.
     - (* PStart *) fin Hs. eapply move_pure; [exact HI | apply same_protocol_refl | .. ]; rewrite ?Hp; cbn; auto.
     - (* PL_Table *) fin Hs. pure_move HI Hp. exact (xi_cur s HI).
-    - (* PL_Meta *) cbv zeta in Hs. destruct (probe _ _); fin Hs; pure_move HI Hp.
+    - (* PL_Meta *) cbv zeta in Hs. destruct (probe _ _); fin Hs; pure_move HI Hp. split; [exact Hv | discriminate].
     - (* PL_Ent *)
       destruct todo as [|i rest]; [discriminate|]. cbv zeta in Hs.
+      destruct Hv as [Hv _].
       destruct (s_ent _) as [[k' v]|]; [destruct (eqd k k')|]; fin Hs.
       + destruct lc; pure_move HI Hp.
-      + destruct rest; pure_move HI Hp.
-      + destruct rest; pure_move HI Hp.
+      + destruct rest; pure_move HI Hp. split; [exact Hv | discriminate].
+      + destruct rest; pure_move HI Hp. split; [exact Hv | discriminate].
     - (* PL_Next *)
       cbv zeta in Hs. destruct (Nat.ltb _ _); fin Hs; [pure_move HI Hp | destruct lc; pure_move HI Hp].
     - (* PW_Table *) fin Hs. pure_move HI Hp. exact (xi_cur s HI).
